@@ -4,6 +4,7 @@ package main
 
 import (
 	"go/token"
+	"go/types"
 	"strings"
 
 	"golang.org/x/tools/go/ssa"
@@ -252,6 +253,16 @@ func checkC02(c *Check) {
 	} else {
 		c.Anchor("flamego.newContext")
 	}
+
+	// ---- R7 one params map from Match down to the nodes
+	c.Rule("R7", "E3 pass-through", "every call on the matching path hands the same Params map on (made in Match), so captures of all levels land in the map that is decoded and returned", 8)
+	passThrough(c, func(t types.Type) bool {
+		n, ok := t.(*types.Named)
+		return ok && n.Obj().Name() == "Params" && n.Obj().Pkg() != nil && n.Obj().Pkg().Path() == modPath+"/internal/route"
+	}, "params", func(fn *ssa.Function, v ssa.Value) bool {
+		_, isMM := strip(v).(*ssa.MakeMap)
+		return isMM || vExtract(1, vCall("(route.Tree).Match"))(v)
+	})
 
 	// ---- R6 `route` parameter on both dispatch paths
 	c.Rule("R6", "E6 sibling agreement", "on both dispatch paths the params handed to the handler hold \"route\" = Route() of the very leaf whose Handler() is invoked", 2)
